@@ -1,6 +1,7 @@
 import LpModel.DriverLib
 import LpModel.C04
-open Lp Lp.C04
+import LpModel.C04.History
+open Lp Lp.C04 Lp.C04.Hist
 
 /-- matrix on the wire: `rows cols e_00 e_01 …` (row-major) -/
 def pMat : P Mat := do
@@ -35,8 +36,47 @@ def b01 (b : Bool) : String := if b then "1" else "0"
     C++ function body -/
 def pSp : P String := tok
 
+def pVOp : P VOp := do
+  let t ← tok
+  match t with
+  | "N" => pure .norm | "D" => pure .dotSelf | "S" => pure .size | "M" => pure .normalized | "U" => pure .normalize
+  | "R" => do let i ← pNat; pure (.read i)
+  | "W" => do let i ← pNat; let x ← pRat; pure (.write i x)
+  | "+" => do let u ← pRats; pure (.addA u)
+  | "-" => do let u ← pRats; pure (.subA u)
+  | "=" => do let u ← pRats; pure (.set u)
+  | "C" => do let u ← pRats; pure (.copySub u)
+  | "Z" => do let n ← pNat; pure (.resize n)
+  | "A" => do let n ← pNat; let e ← pRat; pure (.assign n e)
+  | _ => failure
+
+def pMOp : P MOp := do
+  let t ← tok
+  match t with
+  | "N" => pure .norm | "T" => pure .trace | "D" => pure .det | "P" => pure .transposed
+  | "Y" => pure .symmetric | "S" => pure .shape
+  | "R" => do let i ← pNat; let j ← pNat; pure (.read i j)
+  | "W" => do let i ← pNat; let j ← pNat; let x ← pRat; pure (.write i j x)
+  | "+" => do let b ← pMat; pure (.addA b)
+  | "-" => do let b ← pMat; pure (.subA b)
+  | "=" => do let b ← pMat; pure (.set b)
+  | "C" => do let b ← pMat; pure (.copySub b)
+  | "Z" => do let r ← pNat; let c ← pNat; pure (.resize r c)
+  | "A" => do let r ← pNat; let c ← pNat; let e ← pRat; pure (.assign r c e)
+  | "DR" => do let i ← pNat; pure (.delRow i)
+  | "DC" => do let j ← pNat; pure (.delCol j)
+  | _ => failure
+
+def ansL : Except Err (List Rat) → String
+  | .ok l => "ok" ++ (if l.isEmpty then "" else " " ++ showRats l)
+  | .error .diag => "err"
+  | .error .undef => "undef"
+
 def handle : Handler := fun op args =>
   match op with
+  -- object histories: one object, a sequence of member calls, every observer's value
+  | "c04.vhist" => withArgs (do let v ← pRats; let ops ← pList pVOp; pure (v, ops)) args fun (v, ops) => ansL (vRun v ops)
+  | "c04.mhist" => withArgs (do let a ← pMat; let ops ← pList pMOp; pure (a, ops)) args fun (a, ops) => ansL (mRun a ops)
   | "c04.plus" => withArgs (do let s ← pSp; let a ← pMat; let b ← pMat; pure (s, a, b)) args fun (s, a, b) =>
       if s = "a" then ansM (plusAssign a b) else if s = "m" ∨ s = "o" then ansM (plus a b) else "bad-args"
   | "c04.minus" => withArgs (do let s ← pSp; let a ← pMat; let b ← pMat; pure (s, a, b)) args fun (s, a, b) =>
